@@ -140,7 +140,7 @@ func buildByHistory(rng *rand.Rand, pats []string, detours []string, method stri
 func runMatchD2(r *Run, twoRouters bool, hosts bool) {
 	rng := rand.New(rand.NewSource(r.Seed*733 + 5))
 	d := &matchObsDriver{pidx: map[string]int{}}
-	nTables := pick(r, 40, 400)
+	nTables := pick(r, 40, 1200)
 	method := "GET"
 	vals := []string{"a", "b", "ab", "x:y", "42", "é", "v1.2", "k=v", "{", "*", "a%2Fb"}
 	for t := 0; t < nTables; t++ {
